@@ -9,6 +9,7 @@ chunks. `dataSpec` is the reference (single-shot) semantics: payload = what prec
 match of `boundary_re` in the whole remaining stream.
 -/
 import WzVerif.Lemmas.Multipart
+import WzVerif.Lemmas.MultipartChunks
 namespace Wz.Props.C01
 open Wz Wz.Multipart
 
@@ -237,25 +238,60 @@ theorem searchPos_irrelevant_blank {b c : Bytes} (hnone : searchBlank b = none) 
 example : searchBlank (str "Content-Disposition: form-data; name=\"a\"\r\n\r") = none := by
   decide +kernel
 
+/-! ### P1: whole bodies -/
+
+/-- **decode_chunk_independent (bodies written by the encoder).** For every boundary without
+CR / LF, every list of parts satisfying the decidable predicate `ValidPart` (any number of fields and
+files in any order, repeated names, empty / body-less / non-empty payloads made of CR, LF, CRLF runs,
+dashes, boundary prefixes and look-alikes, long lines, binary — `PayloadOk`: no *line* of the payload
+starts with `--boundary`; Unicode names; extra headers) and **every** list of chunks whose
+concatenation is the body `encBody bnd parts` (= what `MultipartEncoder` writes, CRLF delimiters):
+decoding chunk by chunk raises nothing and yields exactly the same parts — kind, name, filename,
+headers, byte-exact payload — as decoding the body in one piece, namely the encoded parts.
+The retained `_search_position`, the hold-back in `_parse_data`, DATA_START waiting, a chunk ending
+between the CR and LF of a delimiter line, several parts in one chunk … are all covered. -/
+theorem decode_chunk_independent_partial {bnd : Bytes} (hb : BoundaryOk bnd) (parts : List Part)
+    (hv : ∀ p ∈ parts, ValidPart bnd p) (chunks : List Bytes)
+    (hjoin : chunks.flatten = encBody bnd parts) :
+    (decodeChunks bnd none none chunks).err = none ∧
+    partsOf (decodeChunks bnd none none chunks).events =
+      partsOf (decodeChunks bnd none none [encBody bnd parts]).events ∧
+    partsOf (decodeChunks bnd none none chunks).events = parts.map decodedPart := by
+  have h1 := decode_chunks_full_lemma hb parts hv chunks hjoin
+  have h2 := decode_chunks_full_lemma hb parts hv [encBody bnd parts] (by simp)
+  exact ⟨h1.1, by rw [h1.2, h2.2], h1.2⟩
+
+/-- the body really is the encoder's output -/
+theorem encBody_is_encoder_output {bnd : Bytes} (parts : List Part) (hv : ∀ p ∈ parts, ValidPart bnd p) :
+    encodeAll bnd parts = .ok (encBody bnd parts) :=
+  encodeAll_eq parts hv
+
+/-- non-vacuity: the F01a body (payload `x LF y…`) and a body-less field are valid parts, and a
+byte-at-a-time chunking of their body is a chunking -/
+example :
+    BoundaryOk (str "bound") ∧
+    ValidPart (str "bound") ⟨true, some ['a'], some ['f'], [], str "x\nyyyyyyyyyyyyyyyyyyyyyyyyyyy"⟩ ∧
+    ValidPart (str "bound") ⟨false, some ['b'], none, [], []⟩ ∧
+    ((encBody (str "bound") [⟨false, some ['b'], none, [], []⟩]).map fun b => [b]).flatten =
+      encBody (str "bound") [⟨false, some ['b'], none, [], []⟩] := by
+  decide +kernel
+
 /-
 OPEN (P1) — stated, not proved:
 
+-- OPEN: decode_chunk_independent for the rest of the property's grammar: bodies with a preamble or
+-- an epilogue, bare-LF / bare-CR delimiters (with payloads free of the other newline kind), and
+-- header blocks other than the ones the encoder writes. The proof of
+-- `decode_chunk_independent_partial` (Lemmas/MultipartChunks.lean: an invariant `Good` per phase, one
+-- `next_event` lemma per phase valid on every prefix of the stream, accounting of the Data events) is
+-- parametric in the line break only through `AfterDelim` / `hdrBlock`; the missing piece for a
+-- preamble is the stability of `preamble_re` matches under extension for arbitrary preamble bytes.
+-- The unrestricted statement is false (`decode_chunk_independent_full_false`, finding F01c: transport
+-- padding on the first delimiter).
+
 -- OPEN: drain_split — for every decoder configuration reachable from `mkDecoder` and bytes c₁ c₂,
 --   feed c₁ ; drain ; feed c₂ ; drain  ≈  feed (c₁ ++ c₂) ; drain
--- where ≈ is equality of `partsOf` and of the residual configuration up to (i) the split-CRLF LF of
--- `parseData_split` and (ii) payload bytes already released vs still held back.
-
--- OPEN: decode_chunk_independent — for every body that satisfies the decidable predicate
--- `WellFormed bnd body` (rendered from the property's grammar; first delimiter within `PadOk`;
--- header blocks not starting with LF / SP / TAB) and every list of chunks with
--- `chunks.flatten = body`:
---   partsOf (decodeChunks bnd none none chunks).events
---     = partsOf (decodeChunks bnd none none [body]).events
--- The unrestricted statement is false (`decode_chunk_independent_full_false`, finding F01c).
--- Proved here: the DATA / DATA_START phase for every chunk list (`parseData_split`,
--- `parseData_split_none`) and the two search-position lemmas for PREAMBLE / PART; missing: the glue
--- over the phase changes (PREAMBLE -> PART -> DATA_START -> DATA -> PART …) and the PART-phase
--- insensitivity to the split-CRLF LF.
+-- as an equivalence on configurations (the theorem above is stated on whole runs instead).
 -/
 
 end Wz.Props.C01
